@@ -76,6 +76,7 @@ structure Params where
   maxReq   : Nat    -- unhealthy_request_count → Upstream.MaxRequests of upstreams without their own (0 = unlimited)
   firstMax : Nat    -- `max_requests` of the first configured upstream (0 = not set)
   badStatus : List Nat  -- passive unhealthy_status entries (a value < 100 is a class: 5 = 5xx)
+  latency  : Bool   -- passive unhealthy_latency configured (a round trip at least that long is a strike)
   dynamic  : Bool   -- the upstreams come from a dynamic source (`dynamic_upstreams`): they are provisioned and
                     -- released by every loop iteration, which then is a pool holder of its own (see `CfgSt`)
   deriving DecidableEq, Repr
